@@ -34,12 +34,24 @@ Theorem C08_running_sum : forall V C s,
 Proof. exact running_sum. Qed.
 Print Assumptions C08_running_sum.
 
-(* no watcher thread deletes the file of a job that is between acquire and exit *)
+(* TokenFile.watch deletes a token file only when the job's lock is free and there is no pid
+   file or the process it names is gone; in every reachable state this means the job is not
+   between acquire and exit ...                                                          *)
 Theorem C08_watcher_not_early : forall V C s p n s' r,
-  step V C s (Fire p n) = Some (s', r) ->
-  j_ph (s_jobs s n) = Idle \/ j_ph (s_jobs s n) = Ended \/ j_ph (s_jobs s n) = Done.
+  reachable V C s -> step V C s (Fire p n) = Some (s', r) ->
+  j_lock (s_jobs s n) = false /\ (j_pid (s_jobs s n) = false \/ j_ph (s_jobs s n) <> Running) /\
+  (j_ph (s_jobs s n) = Idle \/ j_ph (s_jobs s n) = Ended \/ j_ph (s_jobs s n) = Done).
 Proof. exact watcher_not_early. Qed.
 Print Assumptions C08_watcher_not_early.
+
+(* ... because the scheduler holds the job lock from before the token is taken until the job
+   process is started and its pid file written (Scheduler.aio_start l.683-735)            *)
+Theorem C08_start_window_locked : forall V C s j,
+  reachable V C s ->
+  (j_ph (s_jobs s j) = Creating \/ j_ph (s_jobs s j) = Holding -> j_lock (s_jobs s j) = true) /\
+  (j_ph (s_jobs s j) = Running -> j_pid (s_jobs s j) = true).
+Proof. exact start_window_locked. Qed.
+Print Assumptions C08_start_window_locked.
 
 (* the process-level token: available never negative, available + holdings = total *)
 Theorem C08_capacity_inproc : forall total n cnt t,
